@@ -12,7 +12,7 @@ use crate::c10::{all_faults, apply_fault, build_base, BaseEvent};
 use crate::eventgen::{base32_digit, run_maps, BankList};
 use crate::evmodel::encode_event;
 use crate::fwd::{self, Av};
-use crate::procsim::{csv_body, run_binary, write_file, RunEnv, Scratch};
+use crate::procsim::{csv_rows, run_binary, write_file, RunEnv, Scratch};
 use alpha_g_physics::MainEvent;
 use daqmodel::enc::{chunk_message, AdcSpec, PwbChannel, PwbSpec, TrgSpec};
 use daqmodel::midas::{Bank, BankWidth, Event, MidasFile};
@@ -354,7 +354,7 @@ impl Check for C09Check {
                     "out",
                     &RunEnv { sched_seed: Some(*sched_seed), hash_seed: Some(*hash_seed), threads: Some(*threads), real_rayon: *real_rayon, ..Default::default() },
                 );
-                let rows = r.csv.as_ref().and_then(|c| csv_body(c)).map(|b| b.1);
+                let rows = r.csv.as_ref().and_then(|c| csv_rows(c, &["serial_number"]));
                 let ok_rows = rows.as_ref().map_or(false, |r| r.len() == mains && r.iter().zip(&serials).all(|(row, s)| row.first().and_then(|f| f.parse::<u32>().ok()) == Some(*s)));
                 bad = !r.success || !ok_rows;
                 res = Some((r, rows));
